@@ -345,49 +345,47 @@ Print Assumptions C03_limb_D36_old_step_refuted.
 (* the whole function, for every 17-word input with words < 2^63 and top word < 2^60 (what the products deliver):
    loose result, value(out) * 2^257 = value64(b) (mod p).  The bound side conditions of all nine steps are discharged
    (EC/LimbReduceFinal.v gen_rd_eliminate_correct): nothing is assumed about reachable tmp values. *)
-Theorem C03_limb_ReduceDegree : forall b : list N, largeOK b ->
-  looseL (sm2P256ReduceDegree_limbs b) /\
-  (limbs_valueN (sm2P256ReduceDegree_limbs b) * 2 ^ 257) mod sm2_p = large_valueN b mod sm2_p.
-Proof. exact ReduceDegree_limbs_correct. Qed.
-Print Assumptions C03_limb_ReduceDegree.
-
-Theorem C03_limb_Mul_Square : forall a b : list N, looseL a -> looseL b ->
-  (looseL (sm2P256Mul_limbs a b) /\
-   (limbs_valueN (sm2P256Mul_limbs a b) * 2 ^ 257) mod sm2_p = (limbs_valueN a * limbs_valueN b) mod sm2_p) /\
-  (looseL (sm2P256Square_limbs a) /\
-   (limbs_valueN (sm2P256Square_limbs a) * 2 ^ 257) mod sm2_p = (limbs_valueN a * limbs_valueN a) mod sm2_p).
-Proof. intros a b Ha Hb. split; [apply Mul_limbs_correct|apply Square_limbs_correct]; assumption. Qed.
-Print Assumptions C03_limb_Mul_Square.
+Theorem C03_limb_ReduceDegree_Mul_Square :
+  (forall b : list N, largeOK b ->
+     looseL (sm2P256ReduceDegree_limbs b) /\
+     (limbs_valueN (sm2P256ReduceDegree_limbs b) * 2 ^ 257) mod sm2_p = large_valueN b mod sm2_p) /\
+  (forall a b : list N, looseL a -> looseL b ->
+     (looseL (sm2P256Mul_limbs a b) /\
+      (limbs_valueN (sm2P256Mul_limbs a b) * 2 ^ 257) mod sm2_p = (limbs_valueN a * limbs_valueN b) mod sm2_p) /\
+     (looseL (sm2P256Square_limbs a) /\
+      (limbs_valueN (sm2P256Square_limbs a) * 2 ^ 257) mod sm2_p = (limbs_valueN a * limbs_valueN a) mod sm2_p)).
+Proof.
+  split; [exact ReduceDegree_limbs_correct|].
+  intros a b Ha Hb. split; [apply Mul_limbs_correct|apply Square_limbs_correct]; assumption.
+Qed.
+Print Assumptions C03_limb_ReduceDegree_Mul_Square.
 
 (* ---- connection: the limb layer refines the F_p-level model that items 2-5 are about -------------------------------
    fe = sm2P256ToBig (value * RInverse mod p).  Each limb function commutes with fe on loose operands and returns loose
    limbs; hence every straight-line program over them (fexpr: Add, Sub, Mul, Square, Scalar k, constants) computes on
    limbs a representation of what the F_p-level model computes - instantiated for sm2P256PointDouble. *)
-Theorem C03_limb_refines_Fp_model : forall a b : list N, looseL a -> looseL b ->
-  (looseL (sm2P256Add_limbs a b) /\ fe (sm2P256Add_limbs a b) = AddFe_model (fe a) (fe b)) /\
-  (looseL (sm2P256Sub_limbs a b) /\ fe (sm2P256Sub_limbs a b) = SubFe_model (fe a) (fe b)) /\
-  (looseL (sm2P256Mul_limbs a b) /\ fe (sm2P256Mul_limbs a b) = Mul_model (fe a) (fe b)) /\
-  (looseL (sm2P256Square_limbs a) /\ fe (sm2P256Square_limbs a) = Square_model (fe a)) /\
-  (forall x : Z, looseL (sm2P256FromBig_limbs x) /\ fe (sm2P256FromBig_limbs x) = FromBig_model x).
+Theorem C03_limb_refines_Fp_model :
+  (forall a b : list N, looseL a -> looseL b ->
+     (looseL (sm2P256Add_limbs a b) /\ fe (sm2P256Add_limbs a b) = AddFe_model (fe a) (fe b)) /\
+     (looseL (sm2P256Sub_limbs a b) /\ fe (sm2P256Sub_limbs a b) = SubFe_model (fe a) (fe b)) /\
+     (looseL (sm2P256Mul_limbs a b) /\ fe (sm2P256Mul_limbs a b) = Mul_model (fe a) (fe b)) /\
+     (looseL (sm2P256Square_limbs a) /\ fe (sm2P256Square_limbs a) = Square_model (fe a))) /\
+  (forall x : Z, looseL (sm2P256FromBig_limbs x) /\ fe (sm2P256FromBig_limbs x) = FromBig_model x) /\
+  (* every straight-line program *)
+  (forall (rho : nat -> list N) (e : fexpr), (forall i, looseL (rho i)) -> scalars_ok e ->
+     looseL (eval_limbs rho e) /\ fe (eval_limbs rho e) = eval_fe (fun i => fe (rho i)) e) /\
+  (* sm2P256PointDouble on limbs represents the F_p-level PointDouble_model *)
+  (forall X Y Z : list N, looseL X -> looseL Y -> looseL Z ->
+     let rho := fun i => match i with 0%nat => X | 1%nat => Y | _ => Z end in
+     (looseL (eval_limbs rho pd_x3) /\ looseL (eval_limbs rho pd_y3) /\ looseL (eval_limbs rho pd_z3)) /\
+     (fe (eval_limbs rho pd_x3), fe (eval_limbs rho pd_y3), fe (eval_limbs rho pd_z3)) =
+     PointDouble_model (fe X, fe Y, fe Z)).
 Proof.
+  split; [|split; [exact fe_FromBig|split; [exact fexpr_refines|exact PointDouble_limbs_refines]]].
   intros a b Ha Hb. split; [apply fe_Add; assumption|]. split; [apply fe_Sub; assumption|].
-  split; [apply fe_Mul; assumption|]. split; [apply fe_Square; assumption|]. exact fe_FromBig.
+  split; [apply fe_Mul; assumption|]. apply fe_Square; assumption.
 Qed.
 Print Assumptions C03_limb_refines_Fp_model.
-
-Theorem C03_limb_programs_refine : forall (rho : nat -> list N) (e : fexpr),
-  (forall i, looseL (rho i)) -> scalars_ok e ->
-  looseL (eval_limbs rho e) /\ fe (eval_limbs rho e) = eval_fe (fun i => fe (rho i)) e.
-Proof. exact fexpr_refines. Qed.
-Print Assumptions C03_limb_programs_refine.
-
-Theorem C03_limb_PointDouble_refines : forall X Y Z : list N, looseL X -> looseL Y -> looseL Z ->
-  let rho := fun i => match i with 0%nat => X | 1%nat => Y | _ => Z end in
-  (looseL (eval_limbs rho pd_x3) /\ looseL (eval_limbs rho pd_y3) /\ looseL (eval_limbs rho pd_z3)) /\
-  (fe (eval_limbs rho pd_x3), fe (eval_limbs rho pd_y3), fe (eval_limbs rho pd_z3)) =
-  PointDouble_model (fe X, fe Y, fe Z).
-Proof. exact PointDouble_limbs_refines. Qed.
-Print Assumptions C03_limb_PointDouble_refines.
 
 Example C03_limb_examples :
   sm2P256Add_limbs [1; 0; 0; 0; 0; 0; 0; 0; 536870911]%N [536870911; 268435455; 0; 0; 0; 0; 0; 0; 536870911]%N
